@@ -16,23 +16,39 @@ EXTRACT = ("theories/Extract/ExC08.v", "c08_driver.ml")
 TRUSTED = [
     "modelled by hand (Spec/Spec.v): serialize/deserialize/calc_size of SerializablePrimitive (ints; floats as raw bit "
     "patterns), ByteArray, BytesFixed, BytesGreedy, BytesTerminated, Str, StrFixed, CStr, UUID, Null, Tuple, Template, "
-    "Collection, OptionalPrefixed, BoolAdapter, IntEnum, IntFlag, TypedBytesGreedy/Array/Fixed/Terminated, IfPresent, "
-    "LengthSwitch, EnumSwitch; BufferReader as the list of remaining bytes, BufferWriter as concatenation, any exception as None",
+    "Collection, OptionalPrefixed, OptionalFlagged, BoolAdapter, IntEnum, IntFlag, BitField (helpers.BitField pack/unpack), "
+    "TypedBytesGreedy/Array/Fixed/Terminated (incl. skip_none), IfPresent, LengthSwitch, EnumSwitch, FlagSwitch, ContextSwitch and "
+    "ContextAdapter (context function = lookup of a sibling field); BufferReader as the list of remaining bytes, BufferWriter as "
+    "concatenation, ParseContext as the enclosing dict (empty for sequence members), any exception as None",
+    "identified at translation level (no separate model constructor): Dataclass = Template(record flag: calc_size None) with the "
+    "instance <-> dict conversion done by the harness; BitfieldDataclass = BitField + that conversion; TupleCoord family (Vector3, "
+    "Vector4, Vector3D, Vector*U16/U8, FixedPointVector3U16) = Tuple of their component specs with the coordinate object <-> "
+    "component tuple conversion done by the harness; PackedQuat = its coordinate child with Quaternion(*comps) / .data(n) done "
+    "by the harness; Color4() without inversion = its BytesFixed(4) child",
+    "opaque int adapters (QuantizedFloat and subclasses, FixedPoint): the Python float is represented in the model by the wire int "
+    "the REAL adapter encodes it to (AOpaqueInt = identity on ints).  This is sound exactly under the hypothesis 'lossless on the "
+    "wire domain' (encode(decode(z)) == z), which C10 proves per instance; the harness only uses values z with that property and "
+    "counts the others ('opaque:samples-outside-lossless-hypothesis')",
     "value abstraction: str = its UTF-8 bytes (CPython's strict utf-8 codec modelled by utf8_ok and compared exhaustively on short "
     "inputs), bool = int 0/1, tuple = list, enum/flag member = its int, float = bit pattern (struct's double<->float conversion "
-    "and NaN quieting not modelled; NaN payloads compared up to NaN-ness), names are numbers",
-    "proved fragment = specs with wf = true (stage 1 + IfPresent, EnumSwitch, LengthSwitch with branches of evident exact size).  "
-    "Modelled and compared with the implementation but NOT covered by the round-trip proofs (wf = false or outside domb, reported "
-    "as 'unproved' in the distribution): TypedBytesTerminated, LengthSwitch branches of variable size (e.g. a catch-all branch).  "
-    "Not modelled at all: OptionalFlagged, FlagSwitch, ContextSwitch/ContextAdapter, BitField, Dataclass, "
-    "quantized/fixed-point adapters, TupleCoord family, lazy TypedBytes (lazy_object_proxy), NumPy adapters, BinaryLLSD, FHReader",
+    "and NaN quieting not modelled; NaN payloads compared up to NaN-ness), names (dict keys, member names) are numbers",
+    "proved fragment = specs with wf = true: every modelled constructor.  Domain side conditions that refer to the encoding are part "
+    "of domb (TypedBytesTerminated: the inner encoding contains no terminator byte; LengthSwitch: the tag equals the encoded length "
+    "of the chosen branch).  BitField's domain is stated as 'the dict is exactly what its packed int unpacks to' (checked "
+    "computationally by domb; no separate closed-form range theorem).  NOT modelled (registered trees using them are listed as not "
+    "translated): ContextSwitch/ContextAdapter functions other than a sibling-field lookup (ctx._root, ctx._), TEFaceBitfield / "
+    "TEExceptionField, NameValuesSerializer, DictAdapter / MultiDictAdapter, StringEnumAdapter, DateAdapter, BitmapAdapter, "
+    "AttachmentStateAdapter, Color4 with inversion, ExprAdapter, NumPy adapters, BinaryLLSD, ForwardSerializable recursion, "
+    "lazy TypedBytes over context-dependent specs (lazy proxies are forced by the harness), FHReader",
     "type-confused inputs (a value of the wrong Python type for its spec) are outside the correspondence; a negative length prefix "
     "read through a signed ByteArray/TypedByteArray makes the real reader seek backwards - the model returns None and such cases "
     "are counted as skipped ('neg-length'); decoder runs exceeding the read budget (greedy loop over an entry that consumes "
     "nothing) are counted as 'hang' and skipped",
-    "enum tables: IntFlag classes are generated with distinct single-bit members only (iter(flag_cls) yields exactly those)",
-    "ParseContext: none of the modelled combinators reads its context; the interpreters thread a context (the enclosing dict for "
-    "Template members, empty for sequence members) and the theorems hold for arbitrary contexts on both sides",
+    "enum tables: IntFlag classes are generated / translated with their canonical single-bit members only (iter(flag_cls)); a "
+    "registered IntFlag class with a canonical multi-bit member would be reported as not translated",
+    "(G) translator harness/translate/c08_registry.py: walks se.SUBFIELD_SERIALIZERS and templates.py on every run and regenerates "
+    "coq/gen/C08_registry_gen.v (one `wf reg_i = true` obligation + C08_roundtrip instance per translated tree); enum/flag instance "
+    "serializers are composed with the integer wire type of their message-template variable",
     "while decoding, the harness substitutes serialization.BufferReader by a counting subclass (read budget, detection of negative "
     "byte counts), also for the inner readers of TypedBytes; observation points are BufferWriter.copy_buffer(), the value returned "
     "by Reader.read and len(reader) afterwards, spec.calc_size()",
@@ -238,31 +254,38 @@ class OutOfDomain(Exception):
     pass
 
 
-def fix_tags(node, e, v):
+def fix_tags(node, e, v, ctxd=None):
     """LengthSwitch values carry the byte count of their window as tag: recompute it from the real encoding
-    (everywhere in the value); a default-branch value whose size is an explicit key is outside the domain"""
+    (everywhere in the value); a default-branch value whose size is an explicit key is outside the domain, and so is
+    a TypedBytesTerminated value whose inner encoding contains a terminator byte"""
     k = node.k
-    if v is None or not any(x.k == "lenswitch" or (x.k == "typed" and x.a[0][0] == "term") for x in node.walk()):
+    if not any(x.k == "lenswitch" or (x.k == "typed" and x.a[0][0] == "term") for x in node.walk()):
         return v
-    if k == "typed" and node.a[0][0] == "term":
-        inner = fix_tags(node.ch[0], e, v)
-        if not S.refs(node.ch[0]):
+    if k == "typed":
+        if v is None and node.a[1]:
+            return v
+        inner = fix_tags(node.ch[0], e, v, ctxd)
+        if node.a[0][0] == "term" and not S.refs(node.ch[0]):
             b = impl_ser(S.build(node.ch[0]), inner, e)
             if not isinstance(b, str) and any(t in b for t in node.a[0][1]):
                 raise OutOfDomain()        # the inner encoding contains a terminator byte
         return inner
-    if k in ("coord", "adapter"):
+    if k == "null" or (v is None and k in ("opt", "ifpresent", "optflagged")):
+        return v
+    if k in ("coord", "adapter", "ctxadapter"):
         return v
     if k == "dataclass":
         import dataclasses
         d = v if isinstance(v, dict) else {f.name: getattr(v, f.name) for f in dataclasses.fields(v)}
-        d = {kk: fix_tags(c, e, d[kk]) for kk, c in zip(S.tkeys(node), node.ch)}
+        d = {kk: fix_tags(c, e, d[kk], d) for kk, c in zip(S.tkeys(node), node.ch)}
         return d if isinstance(v, dict) else type(v)(**d)
     if k == "lenswitch":
         tag, inner = v
         idx = list(node.a[0]).index(tag)
         c = node.ch[idx]
-        inner = fix_tags(c, e, inner)
+        inner = fix_tags(c, e, inner, ctxd)
+        if S.refs(c):
+            return (tag, inner)
         b = impl_ser(S.build(c), inner, e)
         if isinstance(b, str):
             return (tag, inner)
@@ -274,17 +297,32 @@ def fix_tags(node, e, v):
             return v
         return [fix_tags(c, e, x) for c, x in zip(node.ch, v)]
     if k == "template":
-        by = {"f%d" % nm: c for nm, c in zip(node.a[0], node.ch)}
-        return {kk: fix_tags(by[kk], e, x) for kk, x in v.items()}
+        by = dict(zip(S.tkeys(node), node.ch))
+        return {kk: (fix_tags(by[kk], e, x, v) if kk in by else x) for kk, x in v.items()}
     if k == "coll":
         return [fix_tags(node.ch[0], e, x) for x in v]
-    if k in ("opt", "typed", "ifpresent", "optflagged"):
-        return fix_tags(node.ch[0], e, v)
+    if k in ("opt", "ifpresent", "optflagged"):
+        return fix_tags(node.ch[0], e, v, ctxd)
+    if k == "ctxswitch":
+        try:
+            i = G.ctx_choice(node, ctxd)
+        except G.NoValue:
+            return v
+        return fix_tags(node.ch[i], e, v, ctxd)
+    if k == "flagswitch":
+        cls = S.flag_cls(node.a[0])
+        out = {}
+        for kk, x in v.items():
+            for (nm, z), c in zip(node.a[3], node.ch):
+                if kk == "F%d" % nm or kk == cls["F%d" % nm]:
+                    x = fix_tags(c, e, x, ctxd)
+            out[kk] = x
+        return out
     if k == "enumswitch":
         tag, inner = v
         tbl, keys = node.a[0], node.a[4]
         z = dict(("E%d" % nm, zz) for nm, zz in reversed(tbl)).get(tag) if isinstance(tag, str) else int(tag)
-        return (tag, fix_tags(node.ch[list(keys).index(z)], e, inner))
+        return (tag, fix_tags(node.ch[list(keys).index(z)], e, inner, ctxd))
     return v
 
 
